@@ -531,6 +531,7 @@ func (p *Pair) Renominate() (int, int, Addr, bool) {
 				if h, ok := s.localH[c.Local.ID()]; ok && h == want.H && c.Remote.Port() == peer.Port {
 					if ip, err := netip.ParseAddr(c.Remote.Address()); err == nil && AddrOf(netip.AddrPortFrom(ip, uint16(c.Remote.Port()))).IP.Cmp(peer.IP) == 0 {
 						pr = c
+						p.VictimLeft = 0 // from now on the other side's checks on this pair get through
 					}
 				}
 			}
